@@ -36,6 +36,7 @@ type View struct {
 	Blocks    []string                 // per BestIndex: digest of block / digest of supplement
 	States    []string                 // per BestIndex: digest of the stored state
 	TipState  []byte
+	NumLeaves uint64 // size of the element accumulator at the tip
 	SC, SF    map[types.Hash256][]byte
 	FC        map[types.Hash256][]byte
 	FCWE      map[types.Hash256]uint64
@@ -166,6 +167,7 @@ func TakeView(db chain.DB, st *chain.DBStore, maxH uint64) (v *View) {
 	if tip, ok := st.BestIndex(v.Height); ok {
 		if cs, ok := st.State(tip.ID); ok {
 			v.TipState = Enc(cs)
+			v.NumLeaves = cs.Elements.NumLeaves
 		}
 		v.SuppTxn = st.SupplementTipTransaction(ProbeTxn(sortedIDs(v.SC), sortedIDs(v.SF), sortedIDs(v.FC)))
 		v.SuppBlock = st.SupplementTipBlock(types.Block{ParentID: tip.ID})
